@@ -5268,6 +5268,11 @@ class DfaCompileCtx:
             if next_target is None or next_target.is_fallthrough:
                 continue
 
+            # (see the second half of this pass: an early return and an action that may leave without consuming don't mix on one transition)
+            combined_actions = [*transition.actions, *next_target.actions]
+            if any(x.may_return_early() for x in combined_actions) and any(x.get_target_override_mode() == ActionOverrideMode.MAY_GOTO_TARGET for x in combined_actions):
+                continue
+
             # Are there actions? If so, does this violate the threshold
             if len(next_target.actions) > 0:
                 max_count = ProgramData.option(ProgramOption.MAX_SHORTCIRCUIT_FALLTHROUGH) - ProgramData.option(ProgramOption.MAX_SHORTCIRCUIT_ACTION_PENALTY)*(len(next_target.actions)-1)
@@ -5302,6 +5307,12 @@ class DfaCompileCtx:
             to_replace = transition.target.transitions[0]
 
             if not to_replace.is_fallthrough:
+                continue
+
+            # An action that returns early (a yield) makes the generated code advance the input before the actions of the transition run.
+            # Merged with an action that may leave without consuming (an append that overflows, a break under an if) that would skip a byte.
+            combined_actions = [*transition.actions, *to_replace.actions]
+            if any(x.may_return_early() for x in combined_actions) and any(x.get_target_override_mode() == ActionOverrideMode.MAY_GOTO_TARGET for x in combined_actions):
                 continue
 
             if len(to_replace.actions) > 0:
